@@ -866,12 +866,16 @@ class LTLayoutContainer(LTContainer[LTComponent]):
             objs = set(plane.find((x0, y0, x1, y1)))
             return objs.difference((obj1, obj2))
 
+        # Equal distances are ordered by a serial number (order of creation),
+        # not by id(): memory addresses differ from run to run.
+        serial: Dict[ElementT, int] = {box: i for i, box in enumerate(boxes)}
+
         dists: List[Tuple[bool, float, int, int, ElementT, ElementT]] = []
         for i in range(len(boxes)):
             box1 = boxes[i]
             for j in range(i + 1, len(boxes)):
                 box2 = boxes[j]
-                dists.append((False, dist(box1, box2), id(box1), id(box2), box1, box2))
+                dists.append((False, dist(box1, box2), i, j, box1, box2))
         heapq.heapify(dists)
 
         plane.extend(boxes)
@@ -893,11 +897,19 @@ class LTLayoutContainer(LTContainer[LTComponent]):
                 plane.remove(obj1)
                 plane.remove(obj2)
                 done.update([id1, id2])
+                serial[group] = len(serial)
 
                 for other in plane:
                     heapq.heappush(
                         dists,
-                        (False, dist(group, other), id(group), id(other), group, other),
+                        (
+                            False,
+                            dist(group, other),
+                            serial[group],
+                            serial[other],
+                            group,
+                            other,
+                        ),
                     )
                 plane.add(group)
         # By now only groups are in the plane
